@@ -237,7 +237,8 @@ impl Publisher for PublisherService {
         let topic = self.get_topic_internal(&topic_name).await?;
 
         topic.delete().await.map_err(|e| match e {
-            DeleteError::Closed => conflict(),
+            // The topic went away under us: another deletion won.
+            DeleteError::Closed => topic_not_found(&topic_name),
         })?;
 
         log::debug!("{}: deleting topic {}", &topic_name, start);
